@@ -182,6 +182,14 @@ def compare(ctx, schema, corpus, text, case_extra, rng, dirpath, tag="",
     main = layout.write(dirpath)
     for st in layout.ref_styles.values():
         res.count("reference_" + st)
+    if rng.random() < 0.2:
+        # big resources: comment lines in front of a fragment (and of the
+        # outer file) push it beyond 8, 16 or 64 KiB
+        for rel in layout.files:
+            if rng.random() < 0.6:
+                outcome.pad_file(os.path.join(dirpath, *rel.split("/")),
+                                 rng.choice([8100, 8192, 16384, 70000]))
+                res.count("files_padded_beyond_8k")
     # decoys: files named like the fragments in every other directory of
     # the layout (and in the working directory); a reference names one
     # file, and these are not it
